@@ -8,35 +8,35 @@ _NOTE = ('Trusted: cbmc/goto-instrument 6.11 (DFCC) + MiniSat; the extraction ru
          'functions_under_contract, not the whole-system sentence; mechanisms_not_covered lists what stays unverified.')
 
 CLAIMS = {
-    'C02': dict(kernel='XObject comparisons, DoubleSupport arithmetic/comparison, FunctionSubstring index arithmetic',
-                text='Component-level proof: the XPath comparison/arithmetic/rounding kernels of the real code are proved, for all 2^64 doubles and all operand type pairs, to return the value XPath 1.0 3.4/3.5/4.4 defines, with no UB. The parser, axes and function library are not covered.',
+    'C02': dict(kernel='XObject comparisons, DoubleSupport arithmetic/comparison, FunctionSubstring index arithmetic, normalize-space(), translate() and indexOf, preceding-axis ancestor test',
+                text='Component-level proof: the XPath comparison/arithmetic/rounding kernels of the real code are proved, for all 2^64 doubles and all operand type pairs, to return the value XPath 1.0 3.4/3.5/4.4 defines, with no UB; normalize-space() and translate() are proved per UTF-16 unit for strings of any length. Known finding: the string functions work on UTF-16 units, not characters (surrogate pairs). The parser, most axes and the rest of the function library are not covered.',
                 design_ref='DESIGN.md 4 C02', note=_NOTE, technique='CBMC function contracts (DFCC) on mechanically extracted real functions; loop-free full symbolic domain'),
     'C03': dict(kernel='memory-safety/UB obligations of every unit + fixed-buffer conversions',
                 text='Component-level proof: bounds, pointer, overflow, division and shift obligations of every extracted function, for all inputs; plus the fixed-size buffer conversions the property singles out. Exception-to-status mapping, leaks and parser paths are not covered.',
                 design_ref='DESIGN.md 4 C03', note=_NOTE, technique='CBMC safety instrumentation under function and loop contracts on extracted real functions'),
-    'C04': dict(kernel='UTF-8/UTF-16 writers, surrogate decoding, escaping and CDATA state machines of FormatterToXMLUnicode',
-                text='Component-level proof: the code-unit writers emit exactly the RFC 3629 / UTF-16 encoding of every code point for every buffer fill level; escaping loops emit every input unit once, in order, raw only when not markup-significant; CDATA splitting automaton. Serializer selection, legacy FormatterToXML and transcoders are not covered.',
+    'C04': dict(kernel='UTF-8 and UTF-16 writers, surrogate decoding, escaping and CDATA state machines of FormatterToXMLUnicode',
+                text='Component-level proof: the UTF-8 writer emits exactly the RFC 3629 encoding of every code point for every buffer fill level and the UTF-16 writer passes every unit through once and in order (buffered or direct); escaping loops emit every input unit once, in order, raw only when not markup-significant; CDATA splitting automaton. Serializer selection, legacy FormatterToXML and transcoders are not covered.',
                 design_ref='DESIGN.md 4 C04', note=_NOTE, technique='CBMC function+loop contracts with ghost output-protocol state in stub contracts'),
     'C06': dict(kernel='the six reset() functions the transformer relies on (StylesheetExecutionContextDefault, XPathExecutionContextDefault, XSLTEngineImpl, XObjectFactoryDefault, VariablesStack, XalanTransformer/EnsureReset)',
                 text='Component-level proof: each reset() re-establishes the constructed state of every per-transformation data member (member lists generated from the headers on every run), re-primes the stacks the constructor primes, resets every attached collaborator, destroys owned objects first, and leaves settings and sticky parameters alone; VariablesStack::reset brings the search-start index back to 0 through its pop() loop (loop contract). History equivalence with a fresh transformer, RAII unwinding and the sub-object resets that are not among the six are not covered.',
                 design_ref='DESIGN.md 4 C06', note=_NOTE, technique='CBMC assertions/contracts over ghost member records generated from headers; loop contract for VariablesStack::reset'),
-    'C08': dict(kernel='indentation state machine of FormatterToXMLUnicode + XalanIndentWriter',
-                text='Component-level proof of the invariant "indent whitespace is never emitted next to character data" per public operation.',
+    'C08': dict(kernel='indentation state machine of FormatterToXMLUnicode + XalanIndentWriter; FormatterToHTML::writeAttrURI; the html-switch block of XSLTEngineImpl::flushPending',
+                text='Component-level proof of the invariant "indent whitespace is never emitted next to character data" per public operation of the XML serializer; of the per-unit escaping of HTML URI attribute values (no raw quote or ampersand, %HH escapes are the UTF-8 bytes); and of the on-the-fly switch to the html method (exact conditions, cdata-section-elements off afterwards). Option selection (setupFormatterListener), the text method and the rest of FormatterToHTML are not covered.',
                 design_ref='DESIGN.md 4 C08', note=_NOTE, technique='CBMC contracts, representation invariant per operation with ghost output state'),
-    'C10': dict(kernel='addToList ordering, findTemplate selection loop, getMatchScoreValue',
-                text='Component-level proof: rule lists stay ordered by priority then position; selection returns the first best entry; default priorities table.',
+    'C10': dict(kernel='addToList ordering, Stylesheet::findTemplate (both paths), findTemplateInImports, XPath::getTargetData (default priority per union alternative), getMatchScoreValue',
+                text='Component-level proof: rule lists stay ordered by priority then position; findTemplate returns, with or without conflict reporting, the template of the first list entry that is in mode and matches, else what the imports give; every import is consulted; each union alternative gets the default priority class of XSLT 5.5. The agreement of the run-time match score with the priority the list was ordered by, table construction by name and the built-in rules are not covered.',
                 design_ref='DESIGN.md 4 C10', note=_NOTE, technique='CBMC function+loop contracts with ghost-witness instantiation'),
     'C11': dict(kernel='the six XPath::executeMore overloads and the static XObject conversions',
                 text='Component-level relational proof: for every op code, each specialised evaluation entry point returns the standard conversion of the generic result.',
                 design_ref='DESIGN.md 4 C11', note=_NOTE, technique='CBMC relational harness over mechanically extracted switch tables, full op-code domain'),
-    'C12': dict(kernel='ordered de-duplicating insert of MutableNodeRefList (binary/linear search, dispatch), DOMServices indexed order',
-                text='Component-level proof: the insertion point splits a strictly ordered list at the key for lists of any length (<= 1e8) and all index values; sortedness/duplicate-freedom preserved by insert.',
+    'C12': dict(kernel='ordered de-duplicating insert of MutableNodeRefList (binary/linear search, dispatch), order flags of addNodesInDocOrder and of the namespace axis',
+                text='Component-level proof: the insertion point splits a strictly ordered list at the key for lists of any length (<= 1e8) and all index values; sortedness/duplicate-freedom preserved by insert; a source list is copied verbatim only when flagged document-ordered; the namespace axis collects in strictly descending document order before it reverses and flags its result. The other axes and multi-document interleaving (F15) are not covered.',
                 design_ref='DESIGN.md 4 C12', note=_NOTE, technique='CBMC function+loop contracts with ghost-witness instantiation (unbounded)'),
     'C13': dict(kernel='whitespace-stripping decision, its cached flag, and the observation paths that consult it: node tests text()/node(), the DOMServices string-value family (24 functions, both sinks), copying to the result tree',
                 text='Component-level proof: declarations stay ordered by priority with the later one first among equals and the first matching declaration decides; the cached flag is computed after the import merge; text()/node() never match a stripped text node; in the string-value family every text node is strip-checked before its data is emitted and no container is handed to the context-free walk while declarations exist; source subtrees copied to the result consult the declarations, result tree fragments never do. That the tree walks enumerate every node exactly once, keys, xsl:number and the source-tree builders are not covered.',
                 design_ref='DESIGN.md 4 C13', note=_NOTE, technique='CBMC function+loop contracts on extracted functions; mutual recursion cut by interface contracts with ghost call log'),
-    'C16': dict(kernel='NodeSorter::NodeSortKeyCompare::compare and ElemForEach::sortChildren (sort-key construction)',
-                text='Component-level proof that the comparator handed to std::stable_sort is the lexicographic key order of XSLT 10 and a strict weak order (<= 4 keys), and that every sort key is built from the attributes of its own xsl:sort element (order, data-type, case-order, lang) and still has them when the sort runs (any number of keys). std::stable_sort, the key-value caches and the ICU collator are not covered.',
+    'C16': dict(kernel='NodeSorter::NodeSortKeyCompare::compare, its number-key cache, NodeSorter::sort copy loops, ElemForEach::sortChildren (sort-key construction), the ICU collation functor',
+                text='Component-level proof that the comparator handed to std::stable_sort is the lexicographic key order of XSLT 10 and a strict weak order (<= 4 keys); that the cache returns the key value of the queried (key, original position); that every selected node enters the sort with its original position and the list is rebuilt in sorted order; that every sort key is built from the attributes of its own xsl:sort element and still has them when the sort runs (any number of keys); and that each ICU comparison sets case-first from its own key. std::stable_sort, the string-key cache and ICU itself are assumed.',
                 design_ref='DESIGN.md 4 C16', note=_NOTE, technique='CBMC recursive function contract + relational harnesses; loop contract with ghost witness for the key list'),
     'C17': dict(kernel='ElemNumber::int2alphaCount, toRoman, Counter::getPreviouslyCounted',
                 text='Component-level proof of the alphabetic/roman formatting kernels (buffer safety for all 64-bit values; value round-trip) and the counter lookup.',
@@ -44,8 +44,8 @@ CLAIMS = {
     'C18': dict(kernel='DoubleSupport::round, doValidate (Number grammar), convertHelper, NumberToDOMString(double)',
                 text='Component-level proof: round() is XPath 4.4 for all 2^64 doubles; the Number-grammar validator accepts exactly the grammar for NUL-terminated strings of any length; conversion buffers are safe. libc printf/strtod correctness is assumed.',
                 design_ref='DESIGN.md 4 C18', note=_NOTE, technique='CBMC function+loop contracts on mechanically extracted real functions; ghost DFA in loop invariants'),
-    'C20': dict(kernel='XalanDOMString mutators over a contract model of XalanVector; XalanBitmap',
-                text='Component-level proof of the string-class representation invariant and length/content effects of each mutator against the std::basic_string model; bitmap bit arithmetic.',
+    'C20': dict(kernel='XalanDOMString mutators over a contract model of XalanVector; XalanBitmap; XalanVector::insert(iterator, value); XalanMap::doCreateEntry',
+                text='Component-level proof of the string-class representation invariant and length/content effects of each mutator against the std::basic_string model; bitmap bit arithmetic; the iterator returned by XalanVector::insert designates the inserted element in the current storage; a new XalanMap entry is filed under the bucket index of the table size in force. The other container templates are assumed.',
                 design_ref='DESIGN.md 4 C20', note=_NOTE, technique='CBMC function contracts with ghost-witness content model'),
 }
 
